@@ -330,6 +330,9 @@ class Server:
                 # Re-check after waking up: another caller may have taken the slot.
                 t = t0 + timeout * 0.99 - perf_counter()
                 if t <= 0 or not self._pipeline_notfull.wait(t):
+                    # A notification may have been spent on this waiter just as it
+                    # timed out; pass it on, or another waiter could miss the free slot.
+                    self._pipeline_notfull.notify()
                     raise ServerBacklogFull(len(pipeline), perf_counter() - t0)
 
             pipeline[uid] = fut
@@ -590,6 +593,9 @@ class AsyncServer:
                     asyncio.TimeoutError,
                     TimeoutError,
                 ):  # should be the first one, but official doc referrs to the second
+                    # A notification may have been spent on this waiter just as it
+                    # timed out; pass it on, or another waiter could miss the free slot.
+                    self._pipeline_notfull.notify()
                     raise ServerBacklogFull(len(pipeline), perf_counter() - t0)
 
             # We can't accept situation that an entry is placed in `pipeline`
